@@ -37,6 +37,7 @@ func genStackCfg(t *rapid.T, kinds []string, coop bool) StackCfg {
 	c.Limit = rapid.IntRange(1, 4).Draw(t, "limit")
 	c.Strategy = rapid.SampledFrom([]string{"simple", "precise", "lookup", "predicate"}).Draw(t, "strategy")
 	c.Inject = coop
+	c.FmtLog = rapid.IntRange(0, 3).Draw(t, "fmtLog") == 0
 	switch c.Kind {
 	case "blocking":
 		c.TimeoutMs = rapid.SampledFrom([]int{0, 0, 5, 20, 50}).Draw(t, "timeout")
